@@ -3,10 +3,14 @@ CONSTANTS
   Ads = {"cbawait", "cbawait_v", "mkprom", "discard", "callfn", "conv_mem", "conv_mem_v", "conv_pp", "conv_pp_v", "conv_free", "conv_free_ctx"}
   Allocs = {"heap", "reusable", "mtsafe", "counting"}
   Grain = "atomic"
+  Ctxs = {"plain"}
+  ArgKinds = {"temp"}
   Res = {"r1"}
   Outcomes = {"val", "exc", "drop"}
   MaxRounds = 1
   FixVoidSrc = TRUE
-INVARIANTS TypeOK CallbackOnce RightOutcome HelperFreedOnce ConvertedValueOrException NoStuckState
+  ArmLate = {}
+  ArgsByRef = FALSE
+INVARIANTS TypeOK CallbackOnce RightOutcome HelperFreedOnce ConvertedValueOrException PublishedResumable ArgsAsPassed NoStuckState
 PROPERTIES FreedByCompletion AllComplete
 CHECK_DEADLOCK FALSE
